@@ -4,6 +4,7 @@ import Driver.UUIDp
 import Driver.Lex
 import Driver.Parse
 import Driver.Query
+import Driver.Stmts
 
 def main (args : List String) : IO UInt32 := do
   match args with
@@ -13,6 +14,7 @@ def main (args : List String) : IO UInt32 := do
   | ["lex"] => Driver.Lex.main; return 0
   | ["parse"] => Driver.Parse.main; return 0
   | ["query", mode] => Driver.Query.main mode; return 0
+  | ["stmts"] => Driver.Stmts.main; return 0
   | _ =>
     IO.eprintln "usage: bwdriver <protocol>"
     return 2
